@@ -483,7 +483,7 @@ def check_process_pipes(ctx):
 
 def run(ctx):
     ctx.cov["trusted_base"] = BASE_TRUST + [
-        "hand-written model C16/Model.v tied to fortls.jsonrpc (_send, _receive, path_to_uri) by differential execution (this run)",
+        "hand-written model C16/Model.v + C16/Chunks.v tied to fortls.jsonrpc (_send, _receive incl. the chunked read loop, path_to_uri, path_from_uri) by differential execution (this run)",
         "CPython json.dumps/json.loads, io.BufferedReader, urllib.parse.quote/unquote, pathlib.Path.resolve",
         "independent frame reader/writer in harness/props/c16.py (oracle)",
     ]
